@@ -466,10 +466,32 @@ def point_sequence(fn, compress):
             t = fn.bbs[b]["t"]
             if t["k"] == "call" and (t["f"].get("trait") or "").startswith("ark_serialize::"):
                 n = t["f"].get("name", "")
+                mult = 1
+                if fn.name == "serialized_size":
+                    # `2 * x.uncompressed_size()`: the sub-encoding is counted with its integer multiplier
+                    dl = place_parts(t["d"])[0]
+                    for bi2, si2, s2 in fn.stmts():
+                        r2 = s2.get("r")
+                        if r2 and r2["k"] == "bin" and r2["op"].startswith("Mul"):
+                            for a_, b_ in ((r2["a"], r2["b"]), (r2["b"], r2["a"])):
+                                if op_local(a_) is not None and "k" in b_ and isinstance(b_["k"].get("v"), int):
+                                    src = a_
+                                    for _ in range(4):
+                                        l_ = op_local(src)
+                                        if l_ == dl:
+                                            mult = b_["k"]["v"]
+                                            break
+                                        ds_ = fn.defs().get(l_, [])
+                                        if len(ds_) == 1 and ds_[0][2] == "assign" and ds_[0][3]["r"]["k"] in ("use", "cast"):
+                                            src = ds_[0][3]["r"]["o"]
+                                            if op_local(src) is None:
+                                                break
+                                        else:
+                                            break
                 if "with_flags" in n:
-                    seq.append("F")
+                    seq.extend(["F"] * mult)
                 elif n.startswith(("serialize", "deserialize", "serialized_size", "compressed_size", "uncompressed_size")):
-                    seq.append("M")
+                    seq.extend(["M"] * mult)
         seqs.add(tuple(seq))
     return seqs
 
@@ -493,6 +515,29 @@ def check_trio_points(res, facts):
                 rule.bad(key, "writer %s / reader %s / size %s sub-encoding sequences differ: bytes written, bytes read and the advertised size disagree" % (sorted(w), sorted(r), sorted(s)), fns["serialize_with_mode"].loc)
 
 
+def check_extflags(res, facts):
+    """extension-field elements carry the flag bits in their LAST coefficient only: writer and reader use the plain
+    (flag-free, range-checked) codec for every other coefficient, in the same order -- otherwise stray bits in a
+    middle coefficient are accepted and one element has several encodings"""
+    rule = res.rule("R-EXTFLAGS", "extension-field codec: plain codec for all coefficients but the last, flags only on the last, same order on both sides", 4)
+    for f in facts.fns(unit="ws", crate="ark_ff"):
+        if f.kind == "Closure" or f.name not in ("deserialize_with_flags", "serialize_with_flags") or "_extension::" not in f.id:
+            continue
+        kind = "Quad" if "quadratic" in f.id else "Cubic"
+        key = "ark_ff|%sExtField::%s" % (kind, f.name)
+        seq = []
+        for bb, t in f.calls():
+            if (t["f"].get("trait") or "").startswith("ark_serialize"):
+                n = t["f"].get("name")
+                empty = any("EmptyFlags" in (x or "") for x in (t["f"].get("targs") or []))
+                seq.append(("M" if empty else "F") if "with_flags" in n else ("M" if n in ("serialize_compressed", "deserialize_compressed", "serialize_with_mode", "deserialize_with_mode", "serialize_uncompressed", "deserialize_uncompressed") else n))
+        want = ["M"] * (1 if kind == "Quad" else 2) + ["F"]
+        if seq == want:
+            rule.ok(key, "coefficients %s" % seq, f.loc)
+        else:
+            rule.bad(key, "coefficients are coded as %s (M = plain, F = with flags); only the last coefficient may carry (or accept) flag bits: expected %s. A flag-tolerant read of an inner coefficient accepts encodings with stray bits, so the encoding of an element is not unique" % (seq, want), f.loc)
+
+
 def run(ctx, res):
     facts = ctx.facts(["ws"])
     res.analysed = facts.stats()
@@ -500,6 +545,7 @@ def run(ctx, res):
     check_fpsize(res, facts)
     check_sign(res, facts)
     check_trio_points(res, facts)
+    check_extflags(res, facts)
     return {
         "level": "other",
         "explanation": "Table- and path-enumeration rules over the MIR of the flag types, the Fp codec and the SW/TE point codecs: the flag byte table is enumerated completely (256 values x variants), the sign rule is enumerated over the three orderings of a coordinate and its negation on all three sides (encoder, recovery helper, decoder), size expressions are compared by dataflow, and the sub-encoding sequences of writer / reader / size are compared per compress arm. Byte-for-byte equality of a round trip and the curve-specific bls12_381 encodings are NOT decided here (flag propagation and validation: C18 / C10).",
